@@ -21,7 +21,8 @@
 (*   price[], ramp (rate per tick per step, -1: none), minrun, mindown,    *)
 (*   run0, off0 (ticks), last0 (rate), startcost[], runcost (per tick),    *)
 (*   heat (BOOLEAN), conv <<n,d>>, share <<n,d>>, fuel (BOOLEAN),          *)
-(*   feff <<n,d>>, fuelon (per tick), fuelstart, q (lattice step)          *)
+(*   feff <<n,d>>, fuelon (per tick), fuelstart, q (lattice step),         *)
+(*   mlthr (threshold rate), mlcost (cost per tick below the threshold)    *)
 (* Money is kept times c.conv[2]; fuel times c.feff[1] * c.conv[2].        *)
 (***************************************************************************)
 EXTENDS Integers, Sequences, FiniteSets, TLC, Json
@@ -56,7 +57,9 @@ UCStep(c, K, tol, s, st, m) ==
   IN [bad  |-> IF bads = <<>> THEN "" ELSE bads[1],
       st   |-> [on |-> m.on, dur |-> dnew, last |-> virt],
       \* cost * cd : price on the virtual output, running cost per tick when on, start cost at a start
-      cost |-> c.price[s] * virt + (IF m.on THEN c.runcost * c.d * cd * K ELSE 0) + (IF m.start THEN c.startcost[s] * cd * K ELSE 0),
+      \* minimum-load costs (CHPAsset_with_min_load_costs): a fixed amount per tick whenever the plant is on with a power output below the threshold
+      cost |-> c.price[s] * virt + (IF m.on THEN c.runcost * c.d * cd * K ELSE 0) + (IF m.start THEN c.startcost[s] * cd * K ELSE 0)
+               + (IF m.on /\ c.mlcost > 0 /\ m.p < c.mlthr * c.d * K - tol THEN c.mlcost * c.d * cd * K ELSE 0),
       \* fuel drawn * feff[1] * cd
       fuel |-> IF ~c.fuel THEN 0
                ELSE virt * c.feff[2] + (IF m.on THEN c.fuelon * c.d * K ELSE 0) * c.feff[1] * cd
